@@ -3,6 +3,10 @@
 // Tier K harness module, child of src/eval.rs (no_std + spin-lock feature set: see state_h.rs).
 use super::*;
 #[allow(unused_imports)]
+use crate::{call_pattern::{CallPattern, PatIndex, PatternError, PatternResult}, error::{MockError, MockResult}, fn_mocker::{FnMocker, PatternMatchMode}, private::MismatchReporter, state::SharedState, FallbackMode, MockFnInfo};
+#[allow(unused_imports)]
+use crate::alloc::Box;
+#[allow(unused_imports)]
 use crate::alloc::{vec, String, Vec};
 use crate::call_pattern::__verif_call_pattern_h as ph;
 use crate::counter::__verif_counter_h as ch;
